@@ -48,12 +48,12 @@ func (Cmp) isExpr()   {}
 func (Logic) isExpr() {}
 func (Ite) isExpr()   {}
 
-func N(i int64) Expr            { return Num{V: big.NewRat(i, 1)} }
-func V(name string) Expr        { return Var{Name: name} }
-func Add(a, b Expr) Expr        { return Bin{"+", a, b} }
-func Sub(a, b Expr) Expr        { return Bin{"-", a, b} }
-func Mul(a, b Expr) Expr        { return Bin{"*", a, b} }
-func Div(a, b Expr) Expr        { return Bin{"/", a, b} }
+func N(i int64) Expr              { return Num{V: big.NewRat(i, 1)} }
+func V(name string) Expr          { return Var{Name: name} }
+func Add(a, b Expr) Expr          { return Bin{"+", a, b} }
+func Sub(a, b Expr) Expr          { return Bin{"-", a, b} }
+func Mul(a, b Expr) Expr          { return Bin{"*", a, b} }
+func Div(a, b Expr) Expr          { return Bin{"/", a, b} }
 func F(fn string, a ...Expr) Expr { return Call{Fn: fn, Args: a} }
 
 // ParseNum parses a Go numeric literal into an exact rational.
@@ -540,4 +540,119 @@ func String(e Expr) string {
 		return "ite(" + String(x.Cond) + ", " + String(x.A) + ", " + String(x.B) + ")"
 	}
 	return "?"
+}
+
+// ---------------------------------------------------------------------------
+// Access to the normal form for provers: atoms are registered with their expression.
+
+// CanonReg is Canon, additionally recording every atom (uninterpreted operator application,
+// conditional, plain variable) of the top-level normal form by its name.
+func CanonReg(e Expr, reg map[string]Expr) Ratio {
+	r := Canon(e)
+	if reg != nil {
+		registerAtoms(e, reg)
+	}
+	return r
+}
+
+func registerAtoms(e Expr, reg map[string]Expr) {
+	switch x := e.(type) {
+	case Var:
+		reg[x.Name] = x
+	case Neg:
+		registerAtoms(x.X, reg)
+	case Bin:
+		registerAtoms(x.L, reg)
+		registerAtoms(x.R, reg)
+	case Call:
+		if x.Fn == "pow" && len(x.Args) == 2 {
+			if k, ok := intConst(x.Args[1]); ok && k >= -6 && k <= 6 {
+				registerAtoms(x.Args[0], reg)
+				return
+			}
+		}
+		reg[CanonString(e)] = e
+	case Ite, Cmp, Logic:
+		reg[CanonString(e)] = e
+	}
+}
+
+// Term is one monomial of a polynomial: Coef * prod(atom^power).
+type Term struct {
+	Coef    *big.Rat
+	Factors map[string]int
+}
+
+// Terms lists the monomials of p in a deterministic order.
+func (p Poly) Terms() []Term {
+	var ks []string
+	for k := range p {
+		ks = append(ks, string(k))
+	}
+	sort.Strings(ks)
+	var out []Term
+	for _, k := range ks {
+		out = append(out, Term{Coef: p[mono(k)], Factors: parseMono(mono(k))})
+	}
+	return out
+}
+
+// MonoKey is the canonical key of a monomial.
+func MonoKey(fs map[string]int) string { return string(makeMono(fs)) }
+
+func PConst(r *big.Rat) Poly          { return pconst(r) }
+func PAtom(name string) Poly          { return pvar(name) }
+func PAdd(a, b Poly, sign int64) Poly { return padd(a, b, sign) }
+func PMul(a, b Poly) Poly             { return pmul(a, b) }
+func (p Poly) IsZero() bool           { return len(p) == 0 }
+func (p Poly) Key() string            { return p.String() }
+
+// IsConstDen: the denominator is the constant 1 (after normalisation).
+func (r Ratio) IsConstDen() bool {
+	if len(r.Den) == 1 {
+		if c, ok := r.Den[""]; ok && c.Cmp(big.NewRat(1, 1)) == 0 {
+			return true
+		}
+	}
+	return false
+}
+
+// Subst2 replaces every occurrence of the atom whose canonical text is name by with.
+func Subst2(e Expr, name string, with Expr) Expr {
+	switch x := e.(type) {
+	case Var:
+		if x.Name == name {
+			return with
+		}
+		return x
+	case Num:
+		return x
+	case Neg:
+		return Neg{X: Subst2(x.X, name, with)}
+	case Bin:
+		return Bin{Op: x.Op, L: Subst2(x.L, name, with), R: Subst2(x.R, name, with)}
+	case Cmp:
+		return Cmp{Op: x.Op, L: Subst2(x.L, name, with), R: Subst2(x.R, name, with)}
+	case Logic:
+		as := make([]Expr, len(x.Args))
+		for i, a := range x.Args {
+			as[i] = Subst2(a, name, with)
+		}
+		return Logic{Op: x.Op, Args: as}
+	case Ite:
+		if CanonString(e) == name {
+			return with
+		}
+		return Ite{Cond: Subst2(x.Cond, name, with), A: Subst2(x.A, name, with), B: Subst2(x.B, name, with)}
+	case Call:
+		if CanonString(e) == name {
+			return with
+		}
+		as := make([]Expr, len(x.Args))
+		for i, a := range x.Args {
+			as[i] = Subst2(a, name, with)
+		}
+		return Call{Fn: x.Fn, Args: as}
+	}
+	return e
 }
